@@ -38,6 +38,9 @@ type c14Plan struct {
 	DeadReads bool `json:"dead_reads,omitempty"`
 	// BrokenPipe (write failures): every write after the failing one fails too.
 	BrokenPipe bool `json:"broken_pipe,omitempty"`
+	// EndAfterWrite (write failures): after the failed request the peer closes its side, and the client makes three
+	// blocking receives: each must fail within the read timeout, as after any other end of the transport.
+	EndAfterWrite bool `json:"end_after_write,omitempty"`
 }
 
 type c14 struct{}
@@ -124,6 +127,11 @@ func (c14) Gen(r *Rand, idx int, tier string) interface{} {
 		if i < n {
 			p := &c14Plan{Entries: rs.entries, Cuts: rs.cuts, K: i / len(c14Kinds), Kind: c14Kinds[i%len(c14Kinds)]}
 			p.ReadTimeoutS = []int{1, 2, 5}[idx%3]
+			if idx%11 == 5 && !strings.HasPrefix(p.Kind, "transient") {
+				// legal: a connection that ended is reported at once (not combined with a transient zero-byte EOF,
+				// which a timeout of zero declares to be the end although the stream goes on)
+				p.ReadTimeoutS = 0
+			}
 			p.EOFCostMs = []int{10, 100, 500, 1000}[(idx/3)%4]
 			p.Async = idx%7 == 3
 			if idx%5 == 2 {
@@ -147,6 +155,7 @@ func (c14) Gen(r *Rand, idx int, tier string) interface{} {
 	p.Accept = Pick(r, []int{0, 0, 1, 7, 8, 9, 100, 511})
 	p.DeadReads = r.Pct(35)
 	p.BrokenPipe = r.Pct(30)
+	p.EndAfterWrite = !p.DeadReads && r.Pct(40)
 	return p
 }
 func (c14) Decode(raw json.RawMessage) (interface{}, error) {
@@ -555,6 +564,7 @@ func c14RunWrite(p *c14Plan, schedSeed uint64, replay []simrt.Choice, lenient, k
 	var recs []PkgRec
 	var connErr, second string
 	var secondAt time.Duration
+	var lateErrs []time.Duration
 	closed, firstDone := false, false
 	out := s.Run(func() {
 		conn, err := tds.NewConn(context.Background(), MkInfo(100, p.ReadTimeoutS, false))
@@ -585,6 +595,21 @@ func c14RunWrite(p *c14Plan, schedSeed uint64, replay []simrt.Choice, lenient, k
 				break
 			}
 			recs = append(recs, recPkg(pkg))
+		}
+		if p.EndAfterWrite {
+			simrt.Sched(func() {
+				pr.Conn.End(simrt.TermEOF, false)
+				s.Fault("close-eof")
+			})
+			for i := 0; i < 3; i++ {
+				lctx, lcancel := simrt.WithTimeout(context.Background(), 60*time.Second)
+				t0 := simrt.SimNow()
+				_, err := ch.NextPackage(lctx, true)
+				lcancel()
+				if err != nil {
+					lateErrs = append(lateErrs, simrt.SimNow()-t0)
+				}
+			}
 		}
 		// the connection may be broken, but it must not hang: another request returns (with or without an error)
 		// while its context is live, and the connection can be closed
@@ -632,6 +657,15 @@ func c14RunWrite(p *c14Plan, schedSeed uint64, replay []simrt.Choice, lenient, k
 		}
 	}
 	_ = secondAt
+	if p.EndAfterWrite && v.Class == "" && !out.Budget && closed {
+		bound := time.Duration(p.ReadTimeoutS)*time.Second + time.Duration(p.EOFCostMs)*time.Millisecond + time.Second
+		for i, d := range lateErrs {
+			if d > bound {
+				v.Violate("late-error", "receive after a failed write and the end of the transport fails late", "%s, then the peer closed its side: receive #%d failed after %v (read timeout %d s)", where, i+1, d, p.ReadTimeoutS)
+			}
+		}
+		v.Probe("transport-ended-after-write-fault")
+	}
 	if fired {
 		v.Nontrivial = fmt.Sprintf("write|%d|%d|%d", p.ReqLen, p.J, p.Accept)
 	}
